@@ -841,6 +841,67 @@ impl<'a> BInterp<'a> {
                 let root = self.root.take().unwrap();
                 let mut rd = Buf::reader(root);
                 match code {
+                    12 if b % 4 == 2 && rem <= mat => {
+                        // Read::read_vectored (std's default fills only the first non-empty buffer; an override may fill more): any count
+                        // up to min(total, available) is right as long as it is > 0 when both are, the bytes are the next ones laid
+                        // out across the buffers in order, and the inner buffer moved by exactly the count
+                        let n = sel_n(a, chunk, rem).min(1 << 11);
+                        let cut = if n == 0 { 0 } else { (a as usize / 7 + b as usize) % (n + 1) };
+                        btr!(self, "reader().read_vectored([{}, {}]) [remaining {}]", cut, n - cut, rem);
+                        let mut d1 = vec![0xCCu8; cut];
+                        let mut d2 = vec![0xCCu8; n - cut];
+                        let r = catch_unwind(AssertUnwindSafe(|| {
+                            let mut bufs = [std::io::IoSliceMut::new(&mut d1), std::io::IoSliceMut::new(&mut d2)];
+                            rd.read_vectored(&mut bufs)
+                        }));
+                        match r {
+                            Ok(Ok(got)) => {
+                                let flat: Vec<u8> = d1.iter().chain(d2.iter()).copied().collect();
+                                if got > n.min(rem) || (got == 0 && n > 0 && rem > 0) {
+                                    self.v("C12", "reader-read-count", format!("read_vectored returned {} for buffers of {} bytes with {} available", got, n, rem));
+                                } else if flat[..got] != rest[..got] {
+                                    self.v("C12", "reader-read-bytes", "read_vectored: wrong bytes delivered".to_string());
+                                } else if flat[got..].iter().any(|&x| x != 0xCC) {
+                                    self.v("C12", "reader-read-wrote-past-count", "read_vectored: buffers modified beyond the returned count".to_string());
+                                } else {
+                                    self.model.advance(got);
+                                    self.note_span(got, rem, chunk);
+                                }
+                            }
+                            Ok(Err(e)) => self.v("C12", "reader-read-failed", format!("read_vectored: {}", e)),
+                            Err(_) => self.v("C12", "reader-read-panicked", format!("read_vectored: buffers {} available {}", n, rem)),
+                        }
+                    }
+                    12 if b % 4 == 3 && rem <= mat => {
+                        // Read::read_exact: all or UnexpectedEof (then how much was consumed is unspecified: re-synchronise from get_ref())
+                        let n = sel_n(a, chunk, rem).min(1 << 11);
+                        btr!(self, "reader().read_exact(dst.len() = {}) [remaining {}]", n, rem);
+                        let mut dst = vec![0xCCu8; n];
+                        let r = catch_unwind(AssertUnwindSafe(|| rd.read_exact(&mut dst)));
+                        match r {
+                            Ok(Ok(())) => {
+                                if n > rem {
+                                    self.v("C12", "reader-read_exact", format!("read_exact of {} bytes succeeded with {} available", n, rem));
+                                } else if dst[..] != rest[..n] {
+                                    self.v("C12", "reader-read-bytes", "read_exact: wrong bytes delivered".to_string());
+                                } else {
+                                    self.model.advance(n);
+                                    self.note_span(n, rem, chunk);
+                                }
+                            }
+                            Ok(Err(e)) => {
+                                let left = catch_unwind(AssertUnwindSafe(|| rd.get_ref().remaining())).unwrap_or(usize::MAX);
+                                if n <= rem || e.kind() != std::io::ErrorKind::UnexpectedEof {
+                                    self.v("C12", "reader-read-failed", format!("read_exact of {} bytes with {} available: {}", n, rem, e));
+                                } else if left > rem {
+                                    self.v("C12", "reader-get_ref", format!("after a failed read_exact get_ref().remaining()={} but only {} were there", left, rem));
+                                } else {
+                                    self.model.advance(rem - left);
+                                }
+                            }
+                            Err(_) => self.v("C12", "reader-read-panicked", format!("read_exact: dst {} available {}", n, rem)),
+                        }
+                    }
                     12 => {
                         let n = sel_n(a, chunk, rem).min(1 << 11);
                         btr!(self, "reader().read(dst.len() = {}) [remaining {}]", n, rem);
@@ -916,7 +977,27 @@ impl<'a> BInterp<'a> {
                 let r = catch_unwind(AssertUnwindSafe(|| {
                     let it = bytes::buf::IntoIter::new(root);
                     let hint = it.size_hint();
-                    let v: Vec<u8> = it.collect();
+                    // collect, or one of the other consuming Iterator methods (std implements them on next(); an override would not)
+                    let v: Vec<u8> = match b % 5 {
+                        1 => {
+                            let n = it.count();
+                            if n == rest.len() { rest.to_vec() } else { vec![0xEE; n.min(4096)] }
+                        }
+                        2 => {
+                            let l = it.last();
+                            if l == rest.last().copied() { rest.to_vec() } else { l.into_iter().collect() }
+                        }
+                        3 => it.fold(Vec::new(), |mut acc, x| {
+                            acc.push(x);
+                            acc
+                        }),
+                        4 => {
+                            let st = (a as usize % 5) + 1;
+                            let got: Vec<u8> = it.step_by(st).collect();
+                            if got == rest.iter().copied().step_by(st).collect::<Vec<u8>>() { rest.to_vec() } else { got }
+                        }
+                        _ => it.collect(),
+                    };
                     (hint, v)
                 }));
                 match r {
